@@ -134,11 +134,6 @@ func (s *ScopeSchema) ApplyNamespace(externalObjects map[string]*ObjectSchema, n
 		// root definition is reported here (UnserializeScope and UnserializeSchema turn the panic into an
 		// error) rather than on first use, where e.g. a list asking for the reflected type would panic.
 		s.RootObject()
-		// Likewise for the defaults: objects built by unserialization decode their JSON defaults lazily, and
-		// a default that is not valid JSON would only panic on the first Unserialize.
-		for _, object := range s.ObjectsValue {
-			object.GetDefaults()
-		}
 		objectsToApply = s.Objects()
 	} else {
 		objectsToApply = externalObjects
